@@ -218,4 +218,26 @@ def mechanism_facts(fam, t, err, path):
     out["failed_on_enum_keyword"] = bool(enum_leaves)
     out["failed_on_items_count"] = any(str(l.validator) in ("maxItems", "minItems") for l in leaves)
     out["instance_is_int"] = any(isinstance(l.instance, int) and not isinstance(l.instance, bool) for l in enum_leaves)
+    # F36: properties rejected by additionalProperties that are exactly fields declared init=False
+    noninit = set()
+    ref = common.Ref(fam)
+    from ..ref import Ctx
+    for name, d in fam.defs.items():
+        if d.get("k") == "dc":
+            try:
+                opts = ref.dc_opts(name, Ctx())
+            except Exception:
+                opts = None
+            for f in fam.dc_fields(name):
+                if f.get("init") is False:
+                    noninit.add(f["n"])
+                    a = ref.field_alias(name, f, opts) if opts is not None else None
+                    if a is not None:
+                        noninit.add(a)
+    extras = []
+    for l in leaves:
+        if str(l.validator) == "additionalProperties" and isinstance(l.instance, dict) and isinstance(l.schema, dict):
+            extras.append(set(l.instance) - set(l.schema.get("properties", {})))
+    out["rejected_extras_are_all_init_false_fields"] = bool(extras) and all(x and x <= noninit for x in extras) and all(
+        str(l.validator) == "additionalProperties" for l in leaves)
     return out
